@@ -42,6 +42,10 @@ impl Interpreter {
                 self.state.clone()
             }
             ScriptBit::If { code, pass, fail } => {
+                // Validate before popping so a failed conditional leaves the stack untouched
+                if matches!(self.state.stack.last(), Some(top) if top.len() > 4) {
+                    return Err(InterpreterError::TooLongForBool);
+                }
                 let predicate = self.state.stack.pop_bool()?;
                 self.state.executed_opcodes.push(*code);
 
